@@ -139,7 +139,7 @@ func NewSpec(seed uint64, prop string) *Spec {
 		root := s.genStruct(0)
 		s.Roots = append(s.Roots, root)
 		s.PtrRoot[root.ID] = r.IntN(3) == 0
-		s.UpdRoot[root.ID] = prop == "C04" && s.Format == "struct" && r.IntN(3) == 0
+		s.UpdRoot[root.ID] = s.Format == "struct" && r.IntN(3) == 0
 	}
 	if prop == "C07" && r.IntN(2) == 0 {
 		// a chain of unnamed containers (all converted inline, inside one generated method)
@@ -161,7 +161,20 @@ func NewSpec(seed uint64, prop string) *Spec {
 			return n
 		}
 		var sp *node
-		switch r.IntN(4) {
+		switch r.IntN(6) {
+		case 4, 5:
+			// identical unnamed struct whose direct fields are plain values but which holds a
+			// named struct (same type on both sides) with pointer/slice/map fields
+			sh := s.genShared(1)
+			us := &node{Kind: "ustruct", Fields: []*field{
+				{Name: "ID", TName: "ID", N: &node{Kind: "basic", Basic: "int"}},
+				{Name: "Meta", TName: "Meta", N: sh},
+			}}
+			if r.IntN(2) == 0 {
+				sp = &node{Kind: "map", Key: &node{Kind: "basic", Basic: "string"}, Elem: us}
+			} else {
+				sp = &node{Kind: "slice", Elem: us}
+			}
 		case 0:
 			sp = &node{Kind: "tptr", Elem: plain()}
 		case 1:
@@ -676,7 +689,8 @@ type methodSpec struct {
 	Out  string
 	Doc  []string
 	// Update: update-signature method `Name(source In, target *T)`; Out holds T.
-	Update bool
+	Update   bool
+	Fallible bool // update method with an error result
 }
 
 // methods lists the declared converter methods: the roots in several container positions,
@@ -701,8 +715,8 @@ func (s *Spec) methods(twin bool) []methodSpec {
 		if s.PtrRoot[r.ID] {
 			ms = append(ms, methodSpec{Name: fmt.Sprintf("ConvPtr%d", r.ID), In: "*" + S, Out: out("*" + T)})
 		}
-		if s.UpdRoot[r.ID] && !twin {
-			ms = append(ms, methodSpec{Name: fmt.Sprintf("Upd%d", r.ID), In: S, Out: T, Update: true, Doc: []string{"goverter:update target"}})
+		if s.UpdRoot[r.ID] && (!twin || s.Prop == "C07") {
+			ms = append(ms, methodSpec{Name: fmt.Sprintf("Upd%d", r.ID), In: S, Out: T, Update: true, Fallible: fallible && !twin, Doc: []string{"goverter:update target"}})
 		}
 	}
 	// explicit struct methods (needed for goverter:map lines)
@@ -838,7 +852,9 @@ func (s *Spec) ConverterSource() string {
 			if twin && s.Format == "function" {
 				n = "Twin" + n
 			}
-			if m.Update {
+			if m.Update && m.Fallible {
+				fmt.Fprintf(&b, "\t%s(source %s, target *%s) error\n", n, m.In, m.Out)
+			} else if m.Update {
 				fmt.Fprintf(&b, "\t%s(source %s, target *%s)\n", n, m.In, m.Out)
 			} else {
 				fmt.Fprintf(&b, "\t%s(source %s) %s\n", n, m.In, m.Out)
